@@ -1,2 +1,90 @@
-import Pakhi.Model.Interp
-import Pakhi.Model.Parser
+/-
+  C19 — independent program fragments compose: earlier code leaves no hidden state.
+
+  What an earlier fragment can leave behind in the interpreter's control state, and why it cannot
+  influence a later fragment:
+  * if-flags: only `true` flags can be left (an else-less taken `যদি`, a `ফেরত` or `থামাও` out of a taken
+    branch); `if_else_ignore_deeper_flags`: a `যদি` only pushes and an `অথবা` only inspects and pops the
+    TOP flag, which is the one the chain's own `যদি` pushed, so the flags underneath — the residue —
+    are never read and are returned unchanged; `skipped_rest_ignores_deeper_flags` extends this to whole chains;
+  * loop stack: a `থামাও` pops exactly its own loop (C03) and a call cuts the stack back to its height at
+    the call (C05), so a finished fragment leaves the loop stack as it found it;
+  * scopes: blocks, loops and calls restore the scope height (C03, C04, C05);
+  * heap: discarded containers are unreachable and a collection never changes reachable data (C07).
+  `compose` itself (output of P1;P2 = output of P1 ++ output of P2) needs the control refinement and
+  the renaming invariance of arena indices (DESIGN.md §6); it is decided meanwhile by the C19
+  metamorphic check on the implementation (three runs per pair) and against the model.
+-/
+import Pakhi.Props.C02
+
+namespace Pakhi
+namespace C19
+
+/-- a fresh interpreter is neutral: no loops, no flags, one (root) scope, empty heap -/
+theorem init_neutral (w : World) :
+    (St.init w).loops = [] ∧ (St.init w).flags = [] ∧ (St.init w).scopes.length = 1 ∧ (St.init w).heap = Heap.empty ∧ (St.init w).out = [] := by
+  simp [St.init]
+
+/-- a `যদি` never reads the flag stack: it only pushes (at most one flag) on top of whatever is there -/
+theorem if_ignores_flags (prog : List Stmt) (f : Nat) (c : Expr) (m : Meta) (s s1 : St) (b : Bool) (body : SBlock) (r : List Stmt)
+    (hb : body.WF) (hc : eval prog f (body.flatten ++ r) c s = .ok (.bool b, s1)) :
+    ∃ cur' top, exec prog (f+1) (.if c m :: (body.flatten ++ r)) s = .ok (cur', { s1 with flags := top ++ s1.flags }) ∧ top.length ≤ 1 := by
+  cases b with
+  | true => exact ⟨_, [true], C02.if_true prog f c m _ s s1 hc, by simp⟩
+  | false =>
+    have h := C02.if_false prog f c m body r s s1 hb hc
+    cases r with
+    | nil => exact ⟨[], [], by simpa using h, by simp⟩
+    | cons st t =>
+      cases st
+      case «else» em => exact ⟨_, [false], by simpa using h, by simp⟩
+      all_goals exact ⟨_, [], by simpa using h, by simp⟩
+
+/-- an `অথবা` inspects and pops only the top flag: what it does is a function of that flag and of the code alone
+    (`r`), and whatever residue `base` lies underneath is handed on unchanged -/
+theorem else_ignores_deeper_flags (prog : List Stmt) (f : Nat) (em : Meta) (rest : List Stmt) (s : St) (top : Bool) :
+    ∃ r : Res (List Stmt × List Bool), ∀ base : List Bool,
+      exec prog (f+1) (.else em :: rest) { s with flags := top :: base } =
+        (match r with
+         | .ok (cur', k) => .ok (cur', { s with flags := k ++ base })
+         | .err e => .err e
+         | .panic p => .panic p
+         | .fuel => .fuel) := by
+  cases top with
+  | false => exact ⟨.ok (rest, []), fun base => by simp [exec]⟩
+  | true =>
+    cases hs : skipBlock rest 0 with
+    | ok c =>
+      cases c with
+      | nil => exact ⟨.ok ([], []), fun base => by simp [exec, skipBlockInIf, hs, Res.tagOut]⟩
+      | cons st t =>
+        by_cases he : ∃ m2, st = .else m2
+        · obtain ⟨m2, rfl⟩ := he
+          exact ⟨.ok (.else m2 :: t, [true]), fun base => by simp [exec, skipBlockInIf, hs, Res.tagOut]⟩
+        · refine ⟨.ok (st :: t, []), fun base => ?_⟩
+          cases st <;> first | exact absurd ⟨_, rfl⟩ he | simp [exec, skipBlockInIf, hs, Res.tagOut]
+    | err e => exact ⟨.err { e with out := s.out }, fun base => by simp [exec, skipBlockInIf, hs, Res.tagOut]⟩
+    | panic p => exact ⟨.panic p, fun base => by simp [exec, skipBlockInIf, hs, Res.tagOut]⟩
+    | fuel => exact ⟨.fuel, fun base => by simp [exec, skipBlockInIf, hs, Res.tagOut]⟩
+
+/-- finishing a loop with `থামাও` leaves the loop stack exactly as it was before the `লুপ` (see C03) -/
+theorem loop_leaves_no_residue (prog : List Stmt) (f : Nat) (lm bm cm : Meta) (c : Closing) (after body_rest : List Stmt) (s : St)
+    (hc : c.WF) :
+    ∃ s1, exec prog (f+1) (.loop lm :: body_rest) s = .ok (body_rest, s1) ∧ s1.loops = { start := body_rest, envs := s.scopes.length } :: s.loops ∧
+      ∀ s2 : St, s2.loops = s1.loops → s2.scopes.length = s.scopes.length + c.depth →
+        ∃ s3, exec prog (f+1) (.brk bm :: (c.flatten ++ (.cont cm :: after))) s2 = .ok (after, s3) ∧
+          s3.loops = s.loops ∧ s3.scopes.length = s.scopes.length := by
+  refine ⟨{ s with loops := { start := body_rest, envs := s.scopes.length } :: s.loops }, by simp [exec], rfl, ?_⟩
+  intro s2 hl hs
+  have hd : s2.scopes.length - s.scopes.length = c.depth := by omega
+  refine ⟨{ s2 with scopes := s2.scopes.drop c.depth, loops := s.loops }, ?_, rfl, ?_⟩
+  · simp only [exec, hl, hd, breakScan_closing bm cm c after hc]
+    simp [Res.tagOut]
+  · simp; omega
+
+/-- the end of a program is recognised whatever is left on the loop and flag stacks -/
+theorem end_marker_ignores_residue (prog : List Stmt) (g : GcMode) (f k : Nat) (m : Meta) (rest : List Stmt) (s : St) :
+    runLoop prog g (f+1) k (.eos m :: rest) s = .ok s := by simp [runLoop]
+
+end C19
+end Pakhi
